@@ -5,6 +5,7 @@ import (
 	"context"
 	"fmt"
 	"io"
+	"os"
 	"strings"
 	"sync"
 	"sync/atomic"
@@ -25,6 +26,15 @@ import (
 //   - a stream that is open while the table shifts all weight to another
 //     instance of the route (the first one stays in the table at 0%) survives
 //     the pool's clean-up cycle.
+//
+// dsthostMD: the routes of this test carry glob host patterns (*.g<i>-<pid>.example) that no lookup
+// has seen before; the caller names a matching host in its dsthost metadata.
+func dsthostMD(method, id string) metadata.MD {
+	var i int
+	fmt.Sscanf(method, "/fresh.S%d/", &i)
+	return metadata.Pairs("x-call-id", id, "dsthost", fmt.Sprintf("caller.g%d-%d.example", i, os.Getpid()))
+}
+
 func TestC16PoolFirstUse(t *testing.T) {
 	h := startGRPC(t)
 	const nb = 4
@@ -46,7 +56,7 @@ func TestC16PoolFirstUse(t *testing.T) {
 		h.mu.Lock()
 		h.scripts[id] = callScript{responses: [][]byte{{}}}
 		h.mu.Unlock()
-		ctx, cancel := context.WithTimeout(metadata.NewOutgoingContext(context.Background(), metadata.Pairs("x-call-id", id)), 10*time.Second)
+		ctx, cancel := context.WithTimeout(metadata.NewOutgoingContext(context.Background(), dsthostMD(method, id)), 10*time.Second)
 		defer cancel()
 		var req, resp []byte
 		err := h.conn.Invoke(ctx, method, &req, &resp)
@@ -62,7 +72,7 @@ func TestC16PoolFirstUse(t *testing.T) {
 	}
 	var text strings.Builder
 	for i, b := range bs {
-		fmt.Fprintf(&text, "route add fresh%d /fresh.S%d/ grpc://%s opts \"proto=grpc\"\n", i, i, b.ln.Addr())
+		fmt.Fprintf(&text, "route add fresh%d *.g%d-%d.example/fresh.S%d/ grpc://%s opts \"proto=grpc\"\n", i, i, os.Getpid(), i, b.ln.Addr())
 	}
 	setText := func(s string) {
 		tbl, err := route.NewTable(bytes.NewBufferString(s))
@@ -132,7 +142,7 @@ func TestC16PoolFirstUse(t *testing.T) {
 	h.mu.Lock()
 	h.scripts[id] = callScript{responses: [][]byte{{0x08, 0x01}}}
 	h.mu.Unlock()
-	ctx, cancel := context.WithTimeout(metadata.NewOutgoingContext(context.Background(), metadata.Pairs("x-call-id", id)), 40*time.Second)
+	ctx, cancel := context.WithTimeout(metadata.NewOutgoingContext(context.Background(), dsthostMD("/fresh.S0/Stream", id)), 40*time.Second)
 	defer cancel()
 	stream, err := h.conn.NewStream(ctx, &grpc.StreamDesc{ClientStreams: true, ServerStreams: true}, "/fresh.S0/Stream")
 	if err != nil {
@@ -156,7 +166,7 @@ func TestC16PoolFirstUse(t *testing.T) {
 		}
 	}
 	ends0 := atomic.LoadInt64(&bs[0].ends)
-	shifted := text.String() + fmt.Sprintf("route add fresh0b /fresh.S0/ grpc://%s weight 1.0 opts \"proto=grpc\"\n", bs[1].ln.Addr())
+	shifted := text.String() + fmt.Sprintf("route add fresh0b *.g0-%d.example/fresh.S0/ grpc://%s weight 1.0 opts \"proto=grpc\"\n", os.Getpid(), bs[1].ln.Addr())
 	setText(shifted)
 	time.Sleep(6500 * time.Millisecond) // longer than the pool's clean-up interval (5 s)
 	if err := stream.SendMsg(&m2); err != nil {
@@ -211,7 +221,7 @@ func TestC16PoolFirstUse(t *testing.T) {
 	// ---- 5. a backend leaves the table for a moment that contains a clean-up pass and comes
 	// back before the grace period of that pass (grpcshutdowntimeout, 2 s) is over; a stream
 	// opened after its return lives across the end of the grace period
-	one := fmt.Sprintf("route add flap /fresh.S2/ grpc://%s opts \"proto=grpc\"\n", bs[2].ln.Addr())
+	one := fmt.Sprintf("route add flap *.g2-%d.example/fresh.S2/ grpc://%s opts \"proto=grpc\"\n", os.Getpid(), bs[2].ln.Addr())
 	keep := "route add keep /pool.Keep/ grpc://" + h.backends[0].ln.Addr().String() + " opts \"proto=grpc\"\n"
 	setText(keep + one)
 	if _, err := call("/fresh.S2/M"); err != nil {
@@ -231,7 +241,7 @@ func TestC16PoolFirstUse(t *testing.T) {
 	h.mu.Lock()
 	h.scripts[id2] = callScript{responses: [][]byte{{0x08, 0x01}}}
 	h.mu.Unlock()
-	ctx2, cancel2 := context.WithTimeout(metadata.NewOutgoingContext(context.Background(), metadata.Pairs("x-call-id", id2)), 30*time.Second)
+	ctx2, cancel2 := context.WithTimeout(metadata.NewOutgoingContext(context.Background(), dsthostMD("/fresh.S2/Stream", id2)), 30*time.Second)
 	defer cancel2()
 	st2, err := h.conn.NewStream(ctx2, &grpc.StreamDesc{ClientStreams: true, ServerStreams: true}, "/fresh.S2/Stream")
 	if err != nil {
@@ -268,4 +278,28 @@ func TestC16PoolFirstUse(t *testing.T) {
 	hx.Eval()
 	hx.Class("stream-after-backend-flap-across-a-clean-up-pass")
 	hx.NonTrivial("stream-after-backend-flap")
+
+	// ---- 6. after all that concurrency on host patterns the table gets a host pattern nobody has
+	// looked up yet: calls for it are served like any other
+	late := fmt.Sprintf("route add late *.late-%d.example/fresh.S3/ grpc://%s opts \"proto=grpc\"\n", os.Getpid(), bs[3].ln.Addr())
+	setText(keep + one + late)
+	for k := 0; k < 3; k++ {
+		idL := fmt.Sprintf("late-%d", atomic.AddInt64(&h.seq, 1))
+		h.mu.Lock()
+		h.scripts[idL] = callScript{responses: [][]byte{{}}}
+		h.mu.Unlock()
+		ctxL, cancelL := context.WithTimeout(metadata.NewOutgoingContext(context.Background(), metadata.Pairs("x-call-id", idL, "dsthost", fmt.Sprintf("x.late-%d.example", os.Getpid()))), 6*time.Second)
+		var req, resp []byte
+		err := h.conn.Invoke(ctxL, "/fresh.S3/M", &req, &resp)
+		cancelL()
+		h.mu.Lock()
+		delete(h.records, idL)
+		delete(h.scripts, idL)
+		h.mu.Unlock()
+		if err != nil {
+			t.Fatalf("a call for a host pattern that appeared in the table after bursts of simultaneous lookups failed: %v", err)
+		}
+	}
+	hx.EvalN(3)
+	hx.Class("new-host-pattern-after-concurrent-lookups")
 }
